@@ -269,6 +269,10 @@ class Check:
 
     def finish(self, level="proof", assumptions=None):
         wall = time.time() - self.t0
+        if NONFINITE and not self.violations:
+            names = sorted(set(f"{s_}: {t_}" for s_, t_ in NONFINITE))
+            self.broken.append({"name": "the implementation returned non-finite numbers (NaN / Infinity) to the harness and no oracle flagged them "
+                                        "(NaN passes any tolerance comparison)", "detail": "; ".join(names)[:300] + f" ({len(NONFINITE)} values)"})
         # broken obligations without any violation found on the implementation
         if self.broken and not any(v[1] for v in self.violations):
             names = "; ".join(b["name"] for b in self.broken)
@@ -340,13 +344,21 @@ def parse_eval_outputs(out):
     return vals
 
 
+NONFINITE = []          # (driver script, token) for every NaN / Infinity a driver returned in this run
+
+
 def run_impl(script, payload, timeout=600):
     """run tools/impl/<script> under the repo's python with a JSON payload on stdin; returns parsed JSON"""
     rc, out, err = sh([PY, os.path.join(VERIF, "tools", "impl", script)], inp=json.dumps(payload), timeout=timeout)
     lines = [l for l in out.splitlines() if l.startswith("{") or l.startswith("[")]
     if rc != 0 or not lines:
         return {"_error": f"rc={rc}: {(err or out)[-800:]}"}
-    return json.loads(lines[-1])
+
+    def nonfinite(tok):
+        # NaN / Infinity coming back from the implementation must never pass a comparison silently (NaN > tol is False)
+        NONFINITE.append((script, tok))
+        return float("nan") if tok == "NaN" else float(tok.replace("Infinity", "inf"))
+    return json.loads(lines[-1], parse_constant=nonfinite)
 
 
 # ---------------------------------------------------------------- cached end-to-end runs
